@@ -196,4 +196,22 @@ theorem findField_noDb (V : List Str) (e : Entry) (name : Str) : findField none 
   rw [findField_eq]
   cases e.own name <;> rfl
 
+/-- the instrumented lookup is the lookup -/
+theorem findFieldHops_fst (bibData : Option BibData) (visited : List Str) (e : Entry) (name : Str) :
+    (findFieldHops bibData visited e name).1 = findField bibData visited e name := by
+  fun_induction findFieldHops bibData visited e name <;> rw [findField_eq] <;> simp_all [Entry.own]
+
+/-- the number of cross-references followed is at most the number of database entries not followed before -/
+theorem findFieldHops_le (db : BibData) (visited : List Str) (e : Entry) (name : Str) :
+    (findFieldHops (some db) visited e name).2 ≤ unvisited db.entries.dict visited := by
+  generalize hb : some db = bibData
+  fun_induction findFieldHops bibData visited e name <;> try (simp; done)
+  rename_i db' hb' x hx hv p hg ih
+  subst hb
+  cases hb'
+  have h1 := unvisited_lt db.entries.dict _ (lower x) p hg (by simpa using hv)
+  have h2 := ih
+  simp only at h2 ⊢
+  omega
+
 end Pybtex
